@@ -5,6 +5,7 @@
 import PcVerif.Lemmas.SrtRoundTrip
 import PcVerif.Lemmas.VttRoundTrip
 import PcVerif.Lemmas.MicroDvdRoundTrip
+import PcVerif.Lemmas.DfxpHopLemmas
 namespace PcVerif.Props.C08
 
 inductive Res | ms | frame
@@ -116,5 +117,11 @@ open PcVerif in
 theorem mdvd_hop (cs : List VttW.CapIn) (hne : cs ≠ []) (hok : ∀ c ∈ cs, MicroDvd.CapOK c) :
     MicroDvd.read (MicroDvd.write [cs.map VttW.toRCap]) = .ok (cs.map MicroDvd.readBack) :=
   MicroDvd.mdvd_write_read cs hne hok
+
+/-- **C08 (DFXP hop, instants).** the DFXP reader reads the `begin` / `end` stamp the DFXP writers print for an instant as
+    that instant truncated to whole milliseconds — the grid `coarsen` assigns to the format — so a DFXP hop moves an
+    instant to the millisecond grid and nothing more -/
+theorem dfxp_hop_instant (t : Rat) : Dfxp.timeExpr (Fmt.formatTimestamp t '.') = .ok (Srt.msT t) :=
+  Dfxp.dfxp_written_stamp t
 
 end PcVerif.Props.C08
